@@ -70,6 +70,8 @@ class Frame:
         self.cls = cls
         self.vars = {}
         self.exits = []           # (kind, cond, payload)
+        self.nonlocals = set()    # names declared nonlocal / global in this function
+        self.globals = set()
 
     def lookup(self, name):
         f = self
@@ -619,7 +621,8 @@ class Interp:
         if isinstance(st, ast.While):
             return self.exec_while(st, frame, pc)
         if isinstance(st, ast.Nonlocal):
-            raise AnalysisError(f"nonlocal is not modelled ({frame.qual})")
+            frame.nonlocals.update(st.names)
+            return True
         if isinstance(st, ast.Assert):
             c = self.truth(self.eval(st.test, frame))
             self.asserts.append((sp.Implies(pc, c) if pc is not sp.true else c, ast.unparse(st.test), frame.qual))
@@ -660,6 +663,7 @@ class Interp:
             frame.exits.append(("break", pc, self.snapshot(frame)))
             return False
         if isinstance(st, ast.Global):
+            frame.globals.update(st.names)
             return True
         raise AnalysisError(f"statement form {st.__class__.__name__} not modelled "
                             f"({frame.qual}:{getattr(st, 'lineno', '?')})")
@@ -803,7 +807,20 @@ class Interp:
 
     def assign(self, target, value, frame):
         if isinstance(target, ast.Name):
-            # closures write to their own frame (no nonlocal in this package)
+            fn = frame
+            while fn is not None and not fn.nonlocals and not fn.globals and fn.parent is not None and fn.parent.qual == fn.qual:
+                fn = fn.parent        # comprehension sub-frames share the declarations of their function
+            if fn is not None and target.id in fn.globals:
+                self.module_cache[(frame.module, target.id)] = value
+                return
+            if fn is not None and target.id in fn.nonlocals:
+                up = fn.parent
+                while up is not None and target.id not in up.vars:
+                    up = up.parent
+                if up is None:
+                    raise AnalysisError(f"nonlocal {target.id} has no binding in an enclosing function ({frame.qual})")
+                up.vars[target.id] = value
+                return
             frame.vars[target.id] = value
         elif isinstance(target, (ast.Tuple, ast.List)):
             vals = self.lib.iterate(self, value)
@@ -1057,6 +1074,26 @@ class Interp:
         return out
 
     e_GeneratorExp = e_ListComp
+
+    def e_SetComp(self, n, f):
+        out = []
+        self._comp(n, f, lambda fr: out.append(self.eval(n.elt, fr)))
+        res = []
+        for x in out:
+            if not any(x is y or (not isinstance(x, (SymObj, Phi)) and not isinstance(y, (SymObj, Phi)) and x == y) for y in res):
+                res.append(x)
+        try:
+            return set(res)
+        except TypeError:
+            return res
+
+    def e_NamedExpr(self, n, f):
+        v = self.eval(n.value, f)
+        fn = f
+        while fn.parent is not None and fn.parent.qual == fn.qual:
+            fn = fn.parent            # a walrus inside a comprehension binds in the enclosing function
+        self.assign(n.target, v, fn)
+        return v
 
     def e_DictComp(self, n, f):
         out = {}
